@@ -7,12 +7,18 @@ let fnv (l : n list) : string =
   List.iter (fun b -> h := Int64.mul (Int64.logxor !h (Int64.of_int (int_of_n b))) 0x100000001b3L) l;
   Printf.sprintf "%Lx" !h
 
+(* the 256 byte values as Coq numerals, built once *)
+let btab = Array.init 256 n_of_int
+let hexv c = match c with '0'..'9' -> Char.code c - 48 | 'a'..'f' -> Char.code c - 87 | 'A'..'F' -> Char.code c - 55 | _ -> failwith "bad hex"
+let bytes_of_hex (s : string) : n list =
+  if s = "-" then [] else List.init (String.length s / 2) (fun i -> btab.(16 * hexv s.[2 * i] + hexv s.[2 * i + 1]))
+
 let data_of (s : string) : n list =
   if String.length s > 0 && s.[0] = '@' then begin
     match String.split_on_char '.' (String.sub s 1 (String.length s - 1)) with
     | [l; seed] ->
       let n = int_of_string ("0x" ^ l) and x = ref (int_of_string ("0x" ^ seed)) in
-      List.init n (fun _ -> x := (!x * 1103515245 + 12345) land 0x7fffffff; n_of_int ((!x lsr 16) land 0xff))
+      List.init n (fun _ -> x := (!x * 1103515245 + 12345) land 0x7fffffff; btab.((!x lsr 16) land 0xff))
     | _ -> failwith "bad data"
   end else bytes_of_hex s
 
